@@ -83,14 +83,15 @@ def extract():
     ranks = re.findall(r'Value::(\w+)(?:\(_\))? => (\d+)', body or '')
     put('rank_table', ranks if len(ranks) == 9 else None)
 
-    m = re.search(r'const DEFAULT_LIMIT: i64 = (\d+);', tc)
-    put('default_limit', m and int(m.group(1)))
-    m = re.search(r'bounded\((\d+)\)', lib)
-    put('chan_capacity', m and int(m.group(1)))
-    ms = re.findall(r'recv_timeout\(Duration::from_millis\((\d+)\)\)', lib)
-    put('poll_ms', int(ms[0]) if ms and len(set(ms)) == 1 else None)
-    m = re.search(r'Duration::from_millis\((\d+)\),\s*raw_printer', lib)
-    put('refresh_ms', m and int(m.group(1)))
+    num = lambda t: int(t.replace('_', ''))        # Rust integer literals may carry digit separators
+    m = re.search(r'const DEFAULT_LIMIT: i64 = ([\d_]+);', tc)
+    put('default_limit', m and num(m.group(1)))
+    m = re.search(r'bounded\(([\d_]+)\)', lib)
+    put('chan_capacity', m and num(m.group(1)))
+    ms = re.findall(r'recv_timeout\(Duration::from_millis\(([\d_]+)\)\)', lib)
+    put('poll_ms', num(ms[0]) if ms and len(set(ms)) == 1 else None)
+    m = re.search(r'Duration::from_millis\(([\d_]+)\),\s*raw_printer', lib)
+    put('refresh_ms', m and num(m.group(1)))
     # the one-line placeholder frame of PrintAggregateAsRows::print (live terminal, -o logfmt / -o format=)
     body = fn_body(printer, r'impl<T: RowPrinter> AggregatePrinter for PrintAggregateAsRows<T> \{')
     m = re.search(r'fn print\(&mut self[^{]*\{\s*(?://[^\n]*\n\s*)*"((?:[^"\\]|\\.)*)"\.to_string\(\)', body or '')
